@@ -8,7 +8,7 @@ use std::path::PathBuf;
 use std::time::Duration;
 use tokio::fs::File;
 use tokio::{
-    io::{AsyncRead, AsyncReadExt, AsyncSeek, AsyncSeekExt, AsyncWrite},
+    io::{AsyncRead, AsyncReadExt, AsyncSeek, AsyncSeekExt, AsyncWrite, AsyncWriteExt},
     task::spawn_blocking,
 };
 use url::Url;
@@ -309,6 +309,11 @@ where
             ))?;
 
     let mut output_file = output.into_inner();
+    // Wait for the last write to complete so that its result is not lost.
+    output_file
+        .flush()
+        .await
+        .context(format!("Failed to write to {}", opts.output.display()))?;
     if !output_is_block_dev {
         // Resize output file to same size as the archive source
         output_file
